@@ -575,6 +575,81 @@ class ValueNthPersonSite(Contract):
         return []
 
 
+
+class GetRank(Contract):
+    name = f"{POP}.get_rank"
+    prop = ("C10",)
+    top_level = True
+    cases = ("no-condition", "condition")
+    descr = ("ranks within a group: a person outside the condition gets -1; among the members of one group that satisfy the condition "
+             "ranks are pairwise distinct, follow the criterion (a strictly smaller criterion gives a strictly smaller rank), are "
+             "non-negative and form a downward-closed set (every rank below a member's rank is the rank of another such member of the "
+             "same group) - i.e. they are a permutation of 0..m-1 for the m members concerned - whatever the storage order")
+
+    def setup(self, I, ctx, case):
+        w = GWorld(I, ctx)
+        ctx.ghost["gw"] = w
+        ctx.assume(w.N >= 1)          # numpy.max of no positions raises: a population without persons is outside the statement
+        COND = z3.Function(ctx.fresh_name("COND"), z3.IntSort(), z3.BoolSort())
+        cond = nparr.NArr(w.N, lambda j: Sym(COND(B._z(j))), "bool", "condition") if case == "condition" else True
+        return {"self": w.members, "entity": w.pop, "criteria": w.array, "condition": cond, "__w": w,
+                "__cond": (lambda i: COND(i)) if case == "condition" else (lambda i: z3.BoolVal(True))}
+
+    @staticmethod
+    def local_contracts():
+        d = GWorld.site_contracts(None)
+        d[MembersPositionSite.name] = MembersPositionSite()
+        d[ValueNthPersonSite.name] = ValueNthPersonSite()
+        return d
+
+    def post(self, I, ctx, a, out, old):
+        w, cond = a["__w"], a["__cond"]
+        if out[0] != "return" or not isinstance(out[1], nparr.NArr):
+            return [("returns-one-rank-per-person", False)]
+        r = out[1]
+        c = counting(ctx)
+        i, i2, q = ctx.fresh_int("i"), ctx.fresh_int("i2"), ctx.fresh_int("q")
+        rk = lambda x: B.zint(r.elem(x))
+        person = lambda x: z3.And(x >= 0, x < w.N)
+        same = z3.And(person(i), person(i2), i != i2, w.EID(i) == w.EID(i2), cond(i), cond(i2))
+        wit = c.PW(w.EID(i), self._column(ctx, r, w.EID(i), q))
+        out_ = [("one-rank-per-person", B._z(r.n) == w.N),
+                ("outside-the-condition-the-rank-is-minus-one", z3.Implies(z3.And(person(i), z3.Not(cond(i))), rk(i) == -1)),
+                ("ranks-are-non-negative", z3.Implies(z3.And(person(i), cond(i)), rk(i) >= 0)),
+                ("ranks-within-a-group-are-pairwise-distinct", z3.Implies(same, rk(i) != rk(i2))),
+                ("ranks-follow-the-criterion", z3.Implies(z3.And(same, w.A(i) < w.A(i2)), rk(i) < rk(i2)))]
+        if wit is not None:
+            out_.append(("every-rank-below-a-member's-rank-is-taken-by-a-member-of-the-same-group-in-the-condition",
+                         z3.Implies(z3.And(person(i), cond(i), q >= 0, q < rk(i)),
+                                    z3.And(person(wit), w.EID(wit) == w.EID(i), cond(wit), rk(wit) == q))))
+        else:
+            out_.append(("every-rank-below-a-member's-rank-is-taken-by-a-member-of-the-same-group-in-the-condition", False))
+        return out_
+
+    @staticmethod
+    def _column(ctx, r, g, q):
+        """witness for the downward-closure clause: the column that the first sort of the matrix puts at place q of row g (the
+        member standing there is the one whose rank is q); taken from the sorting permutation recorded on the path"""
+        perms = ctx.ghost.get("argsort2_perms") or []
+        if not perms:
+            return None
+        SIG, INV = perms[0]
+        return SIG(g, q)
+
+    def small_model(self, I, case, a):
+        return [a["__w"].N <= 4, a["__w"].G <= 3]
+
+    def probes(self, case):
+        return [{"callee": self.name, "script": NATIVE, "op": "get_rank", "count": 3, "eid": eid, "values": vals[:len(eid)],
+                 "inrole": (cond[:len(eid)] if case == "condition" else [True] * len(eid))}
+                for eid in ([1, 0, 0, 2, 0, 1], [2, 1, 0], [0, 0, 1], [1, 1, 0, 0], [2, 0, 1, 0, 1, 2], [0, 0, 0, 0])
+                for vals in ([30.0, 10.0, 20.0, 5.0, 40.0, 1.0], [1.0, 2.0, 3.0, 4.0, 5.0, 6.0], [6.0, 5.0, 4.0, 3.0, 2.0, 1.0])
+                for cond in ([True, False, True, True, True, False], [False, True, True, False, True, True])]
+
+    def judge_native(self, I, case, call, nat):
+        return judge(nat)
+
+
 REDUCERS = {"max": ("maximum", lambda r, v: r >= v), "min": ("minimum", lambda r, v: r <= v), "all": ("logical_and", lambda r, v: z3.Implies(r, v))}
 
 
@@ -916,6 +991,24 @@ def lemmas(prop, timeout_ms):
     allp = z3.ForAll([x], z3.Implies(z3.And(0 <= x, x < na), z3.And(x < nb, Fa(x) == Fb(x))), patterns=[Fa(x)])
     L += [("increasing-enumerations-of-the-same-set-coincide.step", [inc(Fa, na), inc(Fb, nb), a_in_b, b_in_a, ih, p >= 0, p < na], z3.And(p < nb, Fa(p) == Fb(p))),
           ("increasing-enumerations-of-the-same-set-coincide.length", [inc(Fa, na), inc(Fb, nb), a_in_b, b_in_a, na >= 0, nb >= 0, allp, na < nb], z3.BoolVal(False))]
+    # the sorting permutation of a permutation is its inverse (argsort(argsort(x)) is the rank): P a bijection of [0,C) with inverse
+    # Q, S a bijection of [0,C) with inverse T, P o S non-decreasing  ==>  S = Q. h = P o S is injective and non-decreasing, hence
+    # h(p) >= p (induction upwards) and h(p) <= p (induction downwards from C-1), hence h = id and S(p) = Q(P(S(p))) = Q(p).
+    Pp = z3.Function("P_l", z3.IntSort(), z3.IntSort())
+    Qq = z3.Function("Q_l", z3.IntSort(), z3.IntSort())
+    Ss = z3.Function("S2_l", z3.IntSort(), z3.IntSort())
+    Tt = z3.Function("T_l", z3.IntSort(), z3.IntSort())
+    Cn, pp, xx, yy = z3.Ints("Cn pp xx yy")
+    bij = lambda F, Gi: z3.ForAll([xx], z3.Implies(z3.And(xx >= 0, xx < Cn), z3.And(F(xx) >= 0, F(xx) < Cn, Gi(F(xx)) == xx, Gi(xx) >= 0, Gi(xx) < Cn, F(Gi(xx)) == xx)),
+                                  patterns=[F(xx), Gi(xx)])
+    hh = lambda x: Pp(Ss(x))
+    sortedh = z3.ForAll([xx, yy], z3.Implies(z3.And(0 <= xx, xx < yy, yy < Cn), hh(xx) <= hh(yy)), patterns=[z3.MultiPattern(Ss(xx), Ss(yy))])
+    base = [bij(Pp, Qq), bij(Ss, Tt), sortedh]
+    L += [("sorting-a-permutation.up.base", base + [Cn > 0], hh(z3.IntVal(0)) >= 0),
+          ("sorting-a-permutation.up.step", base + [pp >= 0, pp + 1 < Cn, hh(pp) >= pp], hh(pp + 1) >= pp + 1),
+          ("sorting-a-permutation.down.base", base + [Cn > 0], hh(Cn - 1) <= Cn - 1),
+          ("sorting-a-permutation.down.step", base + [pp >= 0, pp + 1 < Cn, hh(pp + 1) <= pp + 1], hh(pp) <= pp),
+          ("sorting-a-permutation.conclusion", base + [pp >= 0, pp < Cn, hh(pp) >= pp, hh(pp) <= pp], Ss(pp) == Qq(pp))]
     for name, hyps, goal in L:
         verdict, backend, model, dt = smt.prove(hyps, goal, timeout_ms=timeout_ms)
         recs.append({"name": "lemma." + name, "where": "contracts/c10_groups.py", "kind": "lemma", "verdict": verdict,
@@ -923,4 +1016,4 @@ def lemmas(prop, timeout_ms):
     return recs
 
 
-CONTRACTS = [GroupSum(), GroupNbPersons(), GroupAny(), GroupProject(), MembersPosition(), ValueFromPerson(), ValueNthPerson(), GroupReduce(), GroupWrappers(), GroupWrappersMin(), GroupWrappersAll(), ValueFromFirstPerson(), ProjectorTransform(), ProjectorTransforms(), ProjectorTransformsFirst(), ProjectorTransformsRole()]
+CONTRACTS = [GetRank(), GroupSum(), GroupNbPersons(), GroupAny(), GroupProject(), MembersPosition(), ValueFromPerson(), ValueNthPerson(), GroupReduce(), GroupWrappers(), GroupWrappersMin(), GroupWrappersAll(), ValueFromFirstPerson(), ProjectorTransform(), ProjectorTransforms(), ProjectorTransformsFirst(), ProjectorTransformsRole()]
